@@ -474,6 +474,23 @@ def legal_pair_programs():
                                     out.append(pr)
     return out
 
+def arity_programs():
+    """Deterministic enumeration of "a MAKE_MOCKn arity that disagrees with the signature": every n in 0..15 for MAKE_MOCKn and
+    MAKE_CONST_MOCKn on a one-parameter and on a two-parameter signature (each n is a separate entry of the macro table)."""
+    out = []
+    for const in (False, True):
+        for n in range(16):
+            for kind in ("int_int", "int_int2"):
+                if kind not in KINDS or n == arity(kind):
+                    continue
+                o = {"mock_n": n}
+                if const:
+                    o["const_mock"] = True
+                pr = make_program(kind, "REQUIRE_CALL", [return_variants(kind, ("ok",))[0]], **o)
+                if {f.row for f in evaluate(pr)} == {"R28"}:
+                    out.append(pr)
+    return out
+
 def limit_pair_programs(core=False):
     """Deterministic enumeration of "more than one TIMES / RT_TIMES": every giver of a call limit - the limit implied by
     ALLOW_CALL / FORBID_CALL (plain and NAMED_), TIMES with a positive upper bound (n / interval / AT_LEAST / AT_MOST),
